@@ -232,7 +232,7 @@ def bits_for(n):
 def angles_case(ctx, LP, rng, n):
     """unitary_from_angles / unitary_from_conjugations / generator against the exact product"""
     d = ctx.driver()
-    ph, pat = gens.phases(rng, n)
+    ph, pat = gens.phases(rng, n, pattern=("huge" if rng.random() < 0.08 else None))
     which = str(rng.choice(["angles", "angles", "conj"])) if n <= 30 else "angles"
     # the phase list in the containers and number types a caller may hold it in; whole-number phases (legal reals) also as
     # Python ints / an integer ndarray
@@ -258,17 +258,17 @@ def angles_case(ctx, LP, rng, n):
     ctx.count("builder:" + which)
     if which == "angles":
         py = py_call(lambda: LP.LAlg.unitary_from_angles(pharg))
-        mo = d.ask("la.fromangles %d %s" % (bits_for(n), rl(F(x) for x in ph)))
+        mo = d.ask("la.fromangles %d %s" % (bits_for(n), rl(core.redphase(F(x)) for x in ph)))
     else:
         py = py_call(lambda: LP.LAlg.unitary_from_conjugations(pharg))
-        mo = d.ask("la.fromconj %d %s" % (bits_for(n), rl(F(x) for x in ph)))
+        mo = d.ask("la.fromconj %d %s" % (bits_for(n), rl(core.redphase(F(x)) for x in ph)))
     ctx.case([which, ph], n >= 2, {"builder": which, "n": n, "pattern": pat, "phases": ph[:5]})
     replay = {"op": which, "phases": ph, "container": form}
     if py[0] != "ok" or mo.startswith("err:"):
         ctx.violation(which + ":raises", "%s raised / refused: python %s, model %s" % (which, str(py)[:100], mo[:40]), replay)
         return
     mi, mx, err = mo.split()
-    tol = Fraction(1, 10 ** 12) * (n + 1) + pr(err)
+    tol = Fraction(1, 10 ** 12) * (n + 1) + pr(err) + (n + 1) * core.REDUCTION_SLACK
     g = py[1]
     worst_all = Fraction(0)
     for name, comp, m in (("I", g.IPoly, mi), ("X", g.XPoly, mx)):
